@@ -42,6 +42,10 @@ def harnesses(tier, seed):
                 jobs.append(dict(fn='h_jac', params=dict(scaling=scaling, mode=mode, fmt=fmt, units='len' if fmt == 'dict' else 'none'),
                                  wall_s=400 if q else 1500))
     jobs.append(dict(fn='h_mult', params=dict()))
+    jobs.append(dict(fn='h_mult', params=dict(via='options')))
+    for scaling in ('scaler_adder', 'ref_ref0') if q else ('scaler_adder', 'ref_ref0', 'ref_only', 'scaler_only'):
+        for via in ('add', 'options'):
+            jobs.append(dict(fn='h_bounds_mixed', params=dict(scaling=scaling, via=via), wall_s=400 if q else 1500))
     return jobs
 
 
@@ -209,7 +213,61 @@ def h_jac(ctx, scaling, mode, fmt, units):
     ctx.observe('Jf', Jf)
 
 
-def h_mult(ctx):
+def h_bounds_mixed(ctx, scaling, via):
+    """per-element bound arrays that mix finite entries with the +-INF_BOUND sentinel: finite entries are mapped like
+    values, infinite entries stay the sentinel; declared with add_* or re-declared with set_*_options"""
+    _install(ctx)
+    from openmdao.core.constants import INF_BOUND
+    xp = ctx.np
+    n = 2
+    x = ctx.reals('x', n, -100, 100)
+    lo0, up1 = ctx.real('lo0', -100, 100), ctx.real('up1', -100, 100)
+    clo1, cup0 = ctx.real('clo1', -100, 100), ctx.real('cup0', -100, 100)
+    A = ctx.array([[1, 2], [3, 5]])
+    c = ctx.array([1] * n)
+    dkw, da, ds = _scal(ctx, scaling, n, 'd')
+    ckw, ca, cs = _scal(ctx, scaling, n, 'c')
+    lower = ctx.array([lo0, ctx.const(-INF_BOUND)])
+    upper = ctx.array([ctx.const(INF_BOUND), up1])
+    clower = ctx.array([ctx.const(-INF_BOUND), clo1])
+    cupper = ctx.array([cup0, ctx.const(INF_BOUND)])
+    p = om.Problem()
+    p.model.add_subsystem('c', _Lin(A, c, xp), promotes=['*'])
+    if via == 'add':
+        p.model.add_design_var('x', lower=lower, upper=upper, **dkw)
+        p.model.add_constraint('y', lower=clower, upper=cupper, **ckw)
+    else:
+        p.model.add_design_var('x', lower=-5.0, scaler=3.0)
+        p.model.add_constraint('y', upper=7.0, ref=2.0)
+        p.model.set_design_var_options('x', lower=lower, upper=upper, **dkw)
+        p.model.set_constraint_options('y', lower=clower, upper=cupper, **ckw)
+    p.model.add_objective('f')
+    p.setup()
+    p.set_val('x', x)
+    p.final_setup()
+    p.run_model()
+    drv = p.driver
+    y = A.dot(x)
+    dv = drv.get_design_var_values()['x']
+    cv = drv.get_constraint_values()['y']
+    for i in range(n):
+        ctx.eq(f'dv_scaled[{i}]', dv[i], (x[i] + da[i]) * ds[i])
+        ctx.eq(f'con_scaled[{i}]', cv[i], (y[i] + ca[i]) * cs[i])
+    L, Uq, _ = drv._autoscaler.get_bounds_scaling('design_var')
+    cL, cU, _ = drv._autoscaler.get_bounds_scaling('constraint')
+    ctx.eq('dv_lower[0]', L['x'][0], (lo0 + da[0]) * ds[0])
+    ctx.eq('dv_lower_inf[1]', L['x'][1], -INF_BOUND)
+    ctx.eq('dv_upper_inf[0]', Uq['x'][0], INF_BOUND)
+    ctx.eq('dv_upper[1]', Uq['x'][1], (up1 + da[1]) * ds[1])
+    ctx.eq('con_lower_inf[0]', cL['y'][0], -INF_BOUND)
+    ctx.eq('con_lower[1]', cL['y'][1], (clo1 + ca[1]) * cs[1])
+    ctx.eq('con_upper[0]', cU['y'][0], (cup0 + ca[0]) * cs[0])
+    ctx.eq('con_upper_inf[1]', cU['y'][1], INF_BOUND)
+    ctx.observe('dv', dv)
+    ctx.observe('L', L['x'])
+
+
+def h_mult(ctx, via='add'):
     """apply_mult_unscaling: multipliers in model units are invariant under the scaling.  KKT in model space
     for min f st y_i active, x_j on a bound:  df/dx_j + sum_i lam_i dy_i/dx_j + mu_j = 0.  Take the scaled
     multipliers that satisfy the *scaled* stationarity, unscale them with the real code, and require the model-space
@@ -225,8 +283,17 @@ def h_mult(ctx):
     okw, oa_, os_ = _scal(ctx, 'scaler_adder', 1, 'o')
     p = om.Problem()
     p.model.add_subsystem('c', _Lin(A, c, xp), promotes=['*'])
-    p.model.add_design_var('x', **dkw)
-    p.model.add_constraint('y', upper=0, **ckw)
+    if via == 'add':
+        p.model.add_design_var('x', **dkw)
+        p.model.add_constraint('y', upper=0, **ckw)
+    else:
+        # scaling re-declared after the fact; an adder-only re-declaration leaves the variable with no scaler at all
+        p.model.add_design_var('x', scaler=3.0)
+        p.model.add_constraint('y', upper=0, ref=2.0)
+        p.model.set_design_var_options('x', adder=ctx.array(da))
+        p.model.set_constraint_options('y', adder=ctx.array(ca))
+        ds = [ctx.const(1)] * n
+        cs = [ctx.const(1)] * m
     p.model.add_objective('f', **okw)
     p.setup()
     p.set_val('x', x)
